@@ -108,7 +108,7 @@ static T mc_lattice(std::vector<int> const& ks, std::vector<T> const& weights, T
     T beta = T(0.25), int extra = 0)
 {
     // extra = 1: two random numbers per point and one coordinate - the second number enters the integrand as the factor 2 r (mean 1 on its
-    // own lattice of four points); extra = 2: one random number and two coordinates y, 1 - y - the integrand is multiplied by their sum
+    // own lattice); extra = 2: one random number and two coordinates y, 1 - y - the integrand is multiplied by their sum
     std::size_t n = ks.size();
     auto bin_of = [](int k, T y) { return y < T(k) / T(4) ? 0 : 1; };
     auto width = [](int k, int b) { return b == 0 ? T(k) / T(4) : T(1) - T(k) / T(4); };
@@ -151,14 +151,15 @@ static T mc_lattice(std::vector<int> const& ks, std::vector<T> const& weights, T
         return v;
     };
     // (no weights given: the default, uniform weights of a checkpoint that is only told the number of channels)
-    std::vector<std::size_t> const lat = extra == 1 ? std::vector<std::size_t>{Mu, 4, Ms} : std::vector<std::size_t>{Mu, Ms};
+    // (the order in which a call draws its numbers is not prescribed: all lattices of a call have the same size)
+    std::vector<std::size_t> const lat = extra == 1 ? std::vector<std::size_t>{Mu, Mu, Ms} : std::vector<std::size_t>{Mu, Ms};
     auto chk = weights.empty() ? hep::make_multi_channel_chkpt<T, script_engine>(minw, beta, lattice(lat, true))
                                : hep::make_multi_channel_chkpt<T, script_engine>(weights, minw, beta, lattice(lat, true));
     using C = decltype(chk);
     chk.channels(n);
     if (used) *used = chk.channel_weights();
     auto r = hep::multi_channel(hep::make_multi_channel_integrand<T>(fn, extra == 1 ? 2 : 1, map, extra == 2 ? 2 : 1, n),
-        std::vector<std::size_t>{Mu * Ms * (extra == 1 ? 4 : 1)}, chk, hep::callback<C>(hep::callback_mode::silent));
+        std::vector<std::size_t>{Mu * Ms * (extra == 1 ? Mu : 1)}, chk, hep::callback<C>(hep::callback_mode::silent));
     return r.results()[0].value();
 }
 
@@ -204,7 +205,8 @@ static void mc_cases(rng& g, bool thorough)
             int ff = f == 2 ? f_ind : f;
             std::vector<T> used;
             // (every third case: the number of random numbers differs from the number of coordinates, one way or the other)
-            T v = mc_lattice<T>(ks, w, T(fm.minw), ff, k % 2 ? T(1) : T(2), fm.M, fm.M, &used, T(0.25), k % 3 == 2 ? 0 : 1 + k % 3);
+            // (three lattices per call only for the small lattice size)
+            T v = mc_lattice<T>(ks, w, T(fm.minw), ff, k % 2 ? T(1) : T(2), fm.M, fm.M, &used, T(0.25), fm.M == 24 ? 1 : (k % 4 < 2 ? 2 : 0));
             ev("McLat").s("T", type_name<T>::get()).a("ks", ks).a("w", std::vector<int>{0, 0, 0}).i("f", ff).i("Mu", (long long) fm.M).i("Ms", (long long) fm.M)
                 .i("exactWeights", 0).i("recompute", 0).i("value", std::isfinite(v) ? mono_scaled(v, 20) : -999999999).emit();
         }
